@@ -406,7 +406,7 @@ pub mod state {
 
     //@ fn src/writers/file_log_writer/state.rs impl State / fn mount_next_linewriter_if_necessary
     //@   ret r
-    //@   props C01,C08,C09,C19,C07
+    //@   props C01,C08,C09,C19,C07,C18,C16,C06
     //@   req[mount_next.pre.arith] old(self).arith_ok(0)
     //@   ens[mount_next.post] State::mount_post(old(self), force, final(self), r is Ok)
     //@   canary
@@ -533,7 +533,7 @@ pub mod state {
         }
     //@ fn src/writers/file_log_writer/state.rs impl State / fn write_buffer
     //@   ret r
-    //@   props C01,C08,C09,C19,C15
+    //@   props C01,C08,C09,C19,C15,C18,C06
     //@   req[write_buffer.pre.arith] old(self).arith_ok(buf@.len() as int) && old(self).highest_ok()
     //@   req[write_buffer.pre.report] forall|c: ErrorCode| #[trigger] super::util::reportable(c) <==> c is LogFile
     //@   ens[write_buffer.post] State::write_post(old(self), buf@, final(self), r is Ok)
@@ -679,10 +679,12 @@ pub mod state {
     }
     //@ fn src/writers/file_log_writer/state.rs fn open_log_file
     //@   ret r
-    //@   props C06,C15,C16,C01,C14
+    //@   props C06,C15,C16,C01,C14,C18
     //@   ens[open_log_file.post.path] r is Ok ==> pathbuf_view(&r->Ok_0.1) == config.file_spec.path_spec(ostr(o_infix))
     //@   ens[open_log_file.post.fresh] r is Ok ==> r->Ok_0.0@ == fresh_wview()
     //@   ens[open_log_file.post.src] r is Ok ==> r->Ok_0.0.src() == src_for(config, ostr(o_infix))
+    //@   ens[open_log_file.post.symlink] r is Ok ==> symlink_ok(config, config.file_spec.path_spec(ostr(o_infix)))
+    //@   count 1 create_symlink_if_possible(
     //@   canary
 
     // ---- free functions of state.rs ----------------------------------------------------------------
@@ -788,7 +790,14 @@ pub mod state {
     }
     mod platform {
         use super::*;
+        /// prophecy-style oracle (A11): what the configured symlink points to after the verified call;
+        /// `create_symlink_if_possible(link, path)` (re)creates it (failures go to the error channel: not modelled)
+        pub uninterp spec fn symlink_after(link: Seq<char>) -> Seq<char>;
         //@ sig src/writers/file_log_writer/state.rs mod platform / fn create_symlink_if_possible
+        //@   ens symlink_after(path_view(link)) == path_view(path)
+    }
+    pub(crate) open spec fn symlink_ok(config: &FileLogWriterConfig, target: Seq<char>) -> bool {
+        config.o_create_symlink is Some ==> platform::symlink_after(pathbuf_view(&config.o_create_symlink->Some_0)) == target
     }
 }
 }
